@@ -56,6 +56,16 @@ def run_ops(pkg, ops, tags="", repo=None, race=False):
         rc, out = go_test(code, pkg=pkg, run="TestVerifDriver", tags=tags, repo=repo, race=race)
         if rc != 0 or not os.path.exists(outf):
             raise RuntimeError("native driver failed (rc=%d):\n%s" % (rc, out[-3000:]))
-        return json.load(open(outf))
+        res = json.load(open(outf))
+        for r in res:
+            sl = r.get("slots") or {}
+            bad = [k for k in sl if k.endswith("#tail")]
+            for k in bad:
+                sl.pop(k)
+            if bad and "panic" not in r:
+                # writes behind the end of an input slice (into the caller's spare capacity): reported like a crash so
+                # that every battery treats it as a failure
+                r["panic"] = "input slice %s: bytes behind its end (spare capacity of the caller's buffer) were overwritten" % bad[0][:-5]
+        return res
     finally:
         shutil.rmtree(tmp, ignore_errors=True)
